@@ -136,6 +136,7 @@ type ex struct {
 	constLit bool // constant literal in asp's sense (folded once per file in build_defs mode)
 	ln       int  // known length (lists, strings); -1 unknown
 	fold     bool // may be (part of) a constant list literal that asp folds in build_defs files
+	cpart    bool // contains (or is) a constant list literal; matters where the expression is evaluated repeatedly
 }
 
 type avar struct {
@@ -238,7 +239,11 @@ func (g *aspGen) neg(e ex) ex {
 	if strings.HasPrefix(e.s, "0o") { // asp's lexer reads "-0" as a signed literal and then chokes on "o17"
 		sp = " "
 	}
-	return ex{s: "-" + sp + par(e, pAtom), p: pUnary, post: 2, ln: -1, fresh: true}
+	r := ex{s: "-" + sp + par(e, pAtom), p: pUnary, post: 2, ln: -1, fresh: true}
+	if _, err := strconv.Atoi(e.s); err == nil && sp == "" {
+		r.constLit = true // the lexer reads "-12" as one signed literal
+	}
+	return r
 }
 
 func (g *aspGen) not(e ex) ex {
@@ -251,7 +256,7 @@ func (g *aspGen) ternary(a, c, b ex) ex {
 	g.markAliased(a)
 	g.markAliased(b)
 	return ex{s: par(a, pOr) + " if " + par(c, pOr) + " else " + par(b, pTernary), p: pTernary, post: 2, ln: -1,
-		fresh: a.fresh && b.fresh, nonASCII: a.nonASCII || b.nonASCII, rng: a.rng || b.rng, fold: a.fold || b.fold || a.constLit || b.constLit}
+		fresh: a.fresh && b.fresh, nonASCII: a.nonASCII || b.nonASCII, rng: a.rng || b.rng, fold: a.fold || b.fold, cpart: a.cpart || b.cpart}
 }
 
 // base returns e in a form that can take a postfix [..]; the second result is the new post state.
@@ -264,7 +269,7 @@ func base(e ex) (string, int) {
 
 func index(e ex, idx string) ex {
 	b, _ := base(e)
-	return ex{s: b + "[" + idx + "]", p: pAtom, post: 1, ln: -1, nonASCII: e.nonASCII, fold: e.fold || e.constLit}
+	return ex{s: b + "[" + idx + "]", p: pAtom, post: 1, ln: -1, nonASCII: e.nonASCII, fold: e.fold, cpart: e.cpart}
 }
 
 // method appends .m(args) to e.
@@ -403,18 +408,11 @@ func (g *aspGen) literal(ty AspType, depth int) ex {
 		if depth <= 0 && ty.E.container() {
 			n = 0
 		}
-		parts := make([]string, n)
-		cl, na := true, false
-		for i := range parts {
-			e := g.literal(*ty.E, depth-1)
-			parts[i] = arg(e)
-			cl = cl && e.constLit
-			na = na || e.nonASCII
+		els := make([]ex, n)
+		for i := range els {
+			els[i] = g.literal(*ty.E, depth-1)
 		}
-		e := atom("[" + strings.Join(parts, ", ") + "]")
-		e.constLit = cl && !hasDict(ty)
-		e.fresh, e.ln, e.nonASCII = true, n, na
-		return e
+		return listLit(els)
 	default:
 		n := g.n(0, 3, "dictlen")
 		if depth <= 0 && ty.E.container() {
@@ -422,17 +420,37 @@ func (g *aspGen) literal(ty AspType, depth int) ex {
 		}
 		start := g.n(0, len(dictKeys)-1, "key0")
 		parts := make([]string, n)
-		na := false
+		na, cp := false, false
 		for i := range parts {
 			k := dictKeys[(start+i)%len(dictKeys)]
 			e := g.literal(*ty.E, depth-1)
 			na = na || e.nonASCII
+			cp = cp || e.cpart
 			parts[i] = quote(k, false) + ": " + arg(e)
 		}
 		e := atom("{" + strings.Join(parts, ", ") + "}")
-		e.fresh, e.ln, e.nonASCII = true, n, na
+		e.fresh, e.ln, e.nonASCII, e.cpart = true, n, na, cp
 		return e
 	}
+}
+
+// listLit builds a list literal from its elements and works out whether asp treats it (or a part of
+// it) as a constant: a list literal is constant iff all its elements are.
+func listLit(els []ex) ex {
+	parts := make([]string, len(els))
+	cl, na, cp, fold := true, false, false, false
+	for i, e := range els {
+		parts[i] = arg(e)
+		cl = cl && e.constLit
+		na = na || e.nonASCII
+		cp = cp || e.cpart
+		fold = fold || e.fold
+	}
+	e := atom("[" + strings.Join(parts, ", ") + "]")
+	e.constLit = cl
+	e.cpart = cp || (cl && len(els) > 0)
+	e.fresh, e.ln, e.nonASCII, e.fold = true, len(els), na, fold
+	return e
 }
 
 func hasDict(t AspType) bool {
